@@ -9,6 +9,7 @@ package c05
 import (
 	"bufio"
 	"bytes"
+	"context"
 	"encoding/json"
 	"fmt"
 	"os"
@@ -17,6 +18,7 @@ import (
 	"regexp"
 	"strconv"
 	"strings"
+	"time"
 )
 
 const traceSet = "openat,open,creat,read,pread64,write,pwrite64,writev,fdatasync,fsync,sync_file_range,ftruncate,truncate,fallocate," +
@@ -99,12 +101,18 @@ func runTraced(base string, sc *scriptSpec) (*traced, *workerOut, error) {
 	if err != nil {
 		return nil, nil, harnessErr("os.Executable: %v", err)
 	}
-	cmd := exec.Command("strace", "-f", "-qq", "-s", "96", "-o", tracePath, "-e", "trace="+traceSet, exe, "-test.run=^$")
+	// the watchdog only guards against a wedged worker; hitting it is a harness error, never a verdict
+	ctx, cancel := context.WithTimeout(context.Background(), 5*time.Minute)
+	defer cancel()
+	cmd := exec.CommandContext(ctx, "strace", "-f", "-qq", "-s", "96", "-o", tracePath, "-e", "trace="+traceSet, exe, "-test.run=^$")
 	cmd.Env = append(os.Environ(), "VERIF_C05_WORKER="+scriptPath, "VERIF_OUT=", "GOMAXPROCS=2")
 	var stderr bytes.Buffer
 	cmd.Stderr = &stderr
 	cmd.Stdout = nil
 	runErr := cmd.Run()
+	if ctx.Err() != nil {
+		return nil, nil, harnessErr("worker did not finish within 5 minutes (killed)")
+	}
 	tb, rerr := os.ReadFile(tracePath)
 	if rerr != nil {
 		return nil, nil, harnessErr("strace produced no trace (%v; run error %v; stderr %q)", rerr, runErr, tail(stderr.String(), 400))
@@ -188,8 +196,8 @@ func parseTrace(tb []byte, dir string) (*traced, error) {
 	tmpdir := dir + ".tmp"
 	byName := map[string]int{}
 	fds := map[int]*fdState{}
-	pending := map[string]string{}   // pid -> unfinished text
-	pendSync := map[string]int{}      // pid -> syncID of a started fdatasync on one of our files
+	pending := map[string]string{} // pid -> unfinished text
+	pendSync := map[string]int{}   // pid -> syncID of a started fdatasync on one of our files
 	nextSync := 0
 	inDir := func(p string) (string, bool) {
 		p = filepath.Clean(p)
@@ -225,6 +233,12 @@ func parseTrace(tb []byte, dir string) (*traced, error) {
 		if strings.HasSuffix(rest, "<unfinished ...>") {
 			txt := strings.TrimRight(strings.TrimSuffix(rest, "<unfinished ...>"), " ")
 			pending[pid] = txt
+			// close releases the descriptor somewhere between entry and exit; another thread's
+			// openat may already return the same number before the exit is reported
+			if strings.HasPrefix(txt, "close(") {
+				delete(fds, int(atoi(strings.TrimRight(strings.TrimSpace(txt[len("close("):]), ", )"))))
+				pending[pid] = "closed_already("
+			}
 			// a sync that has started: remember how much had been written before it started
 			if strings.HasPrefix(txt, "fdatasync(") || strings.HasPrefix(txt, "fsync(") {
 				fd := int(atoi(strings.TrimRight(strings.TrimSpace(txt[strings.IndexByte(txt, '(')+1:]), ", ")))
@@ -309,6 +323,7 @@ func parseTrace(tb []byte, dir string) (*traced, error) {
 		case "close":
 			args := splitTopArgs(argstr)
 			delete(fds, int(atoi(args[0])))
+		case "closed_already":
 		case "dup", "dup2", "dup3":
 			args := splitTopArgs(argstr)
 			if st := fds[int(atoi(args[0]))]; st != nil && st.valid {
@@ -466,9 +481,9 @@ func parseTrace(tb []byte, dir string) (*traced, error) {
 type fileState struct {
 	name    string // current name ("" = does not exist)
 	oldName string // non-empty while a rename to name is not yet covered by a directory fsync
-	size        int64
-	written     int64 // bytes [0,written) have been written (append-only)
-	synced      int64 // bytes [0,synced) are covered by a completed sync
+	size    int64
+	written int64 // bytes [0,written) have been written (append-only)
+	synced  int64 // bytes [0,synced) are covered by a completed sync
 }
 
 type crashState struct {
